@@ -452,8 +452,9 @@ example :
     let s' := i2cNext 2 s ⟨false, false, false, false, true, 1, false, 0, false⟩
     s.scl ≠ s'.scl ∧ s.sda ≠ s'.sda := by decide
 
-/-- **Commands always finish (ticks).**  Outside IDLE every enabled FSM step (a clk2x tick, or an extra command
-    strobe) lowers the rank by exactly one and rank 0 is IDLE; the rank after a command accepted in IDLE is
+/-- **Commands always finish (ticks).**  Outside IDLE every enabled FSM step (a clk2x tick; since fix 86eb66e command
+    strobes advance the FSM only from IDLE) lowers the rank by exactly one and rank 0 is IDLE; the rank after a
+    command accepted in IDLE is
     write 19, read 18, start 1 (SCL high) / restart 3 (SCL low), stop 3 — the number of ticks until IDLE. -/
 theorem i2c_command_ticks (s : I2cSt) (i : I2cIn) (hb : s.bits < 16) :
     (s.fsm ≠ .idle → i2cRank (i2cFsmStep s i) + 1 = i2cRank s) ∧ (i2cRank s = 0 ↔ s.fsm = .idle) ∧ i2cRank s ≤ 34 ∧
